@@ -6,6 +6,7 @@ lean/GlmVerif/Props/<prop>/All.lean with `all_ok`.  Run by hand when a family is
 committed (the checks do not regenerate it)."""
 import re, sys, os, subprocess
 prop = sys.argv[1]
+DEEP = {'unprojP'}     # families whose kernel evaluation needs a deeper recursion limit
 here = os.path.dirname(os.path.abspath(__file__))
 root = os.path.join(here, '..', 'lean', 'GlmVerif')
 subprocess.run([os.path.join(here, 'lake.sh'), 'build', 'GlmVerif.Spec.All'], check=True, stdout=subprocess.DEVNULL)
@@ -22,10 +23,10 @@ import GlmVerif.Gen.%s.%s
 /-! table check of family `%s` against the model of its units generated from /repo (kernel evaluation) -/
 namespace Glm.Props.%s
 open Glm Glm.Spec.%s Glm.Gen.%s
-set_option maxHeartbeats 4000000 in
+set_option maxHeartbeats 4000000 in%s
 theorem %s_ok : f_%s.ok (fun _ ks => %s_L ks) = true := by decide +kernel
 end Glm.Props.%s
-''' % (prop, prop, unit, name, prop, prop, prop, name, name, unit, prop))
+''' % (prop, prop, unit, name, prop, prop, prop, ('\nset_option maxRecDepth 1000000 in' if name in DEEP else ''), name, name, unit, prop))
 for f in os.listdir(d):
     if f.endswith('.lean') and f.startswith('T_') and f not in keep: os.remove(os.path.join(d, f))
 imports = ''.join('import GlmVerif.Props.%s.T_%s\n' % (prop, n) for n, _ in fams)
